@@ -374,3 +374,44 @@ def anonhome(repo):
         raise AnalysisError("module_ir: no function hoisting subtypes found")
     res.analysed = [mi.rel, syn.rel]
     return res
+
+
+def leafcheck(repo):
+    """R-LEAFCHECK (C16): a function that only looks at the *leaf kind* of the expression it is given (it returns at once
+    unless the expression is a `builtin_reference`) says nothing about expressions nested below it.  Such a function
+    checks a whole expression tree only when it is run as a traversal action over [Expression]; a direct call with the
+    root (`field.location.size`) sees `$next + 1` as a function node and lets the nested `$next` through -- the
+    replacement of the following field's `$next` then recurses until RecursionError."""
+    res = RuleResult("R-LEAFCHECK")
+    m = repo.mod("compiler/front_end/synthetics.py")
+    leaf = set()
+    for f in m.top_funcs():
+        body = f.node.body
+        first = next((st for st in body if not (isinstance(st, ast.Expr) and isinstance(st.value, ast.Constant))), None)
+        params = [a.arg for a in f.node.args.args]
+        if isinstance(first, ast.If) and params and any(isinstance(x, ast.Return) for x in first.body):
+            t = ast.unparse(first.test)
+            if "builtin_reference" in t and params[0] in t and "not" in t:
+                leaf.add(f.name)
+    if not leaf:
+        raise AnalysisError("synthetics: no leaf-kind check (returns unless builtin_reference) found")
+    for f in m.funcs.values():
+        for n in walk_no_nested_funcs(f.node):
+            if isinstance(n, ast.Call):
+                cn = (call_name(n) or "")
+                if cn in leaf:
+                    res.instances += 1
+                    res.add(f"{m.rel}|{f.qualname}|{cn}|direct-call", f"{f.qualname} calls {cn}({ast.unparse(n.args[0]) if n.args else ''}) "
+                            "directly: the check only recognises a bare builtin reference, so a keyword nested in the expression "
+                            "(`[+$next + 1]`) is not seen; it has to run as a traversal action over [Expression]", m.rel, n.lineno, f.qualname)
+                elif cn.split(".")[-1].startswith("fast_traverse") and any(isinstance(a, ast.Name) and a.id in leaf for a in n.args):
+                    res.instances += 1
+                    pat = n.args[1] if len(n.args) > 1 else None
+                    if not (isinstance(pat, ast.List) and pat.elts and ast.unparse(pat.elts[-1]).endswith("Expression")):
+                        res.add(f"{m.rel}|{f.qualname}|pattern", f"{f.qualname} runs a leaf check over pattern {ast.unparse(pat) if pat else '?'}, "
+                                "not over [Expression]", m.rel, n.lineno, f.qualname)
+    if res.instances < 2 and not res.findings:
+        raise AnalysisError(f"only {res.instances} uses of the leaf checks {sorted(leaf)} found")
+    res.samples = [f"leaf checks: {sorted(leaf)}"]
+    res.analysed = [m.rel]
+    return res
